@@ -185,7 +185,7 @@ func runMuxStruct(c *mon.Ctx, prop string) {
 				continue
 			}
 			r := c.Rng("grid", pl)
-			for shape := 0; shape < 18; shape++ {
+			for shape := 0; shape < 20; shape++ {
 				p := &astits.Packet{Header: astits.PacketHeader{PID: 0x1500, HasPayload: pl > 0, ContinuityCounter: uint8(shape)}, Payload: gen.Bytes(r, int(pl))}
 				switch shape / 2 {
 				case 1:
@@ -244,6 +244,11 @@ func runMuxStruct(c *mon.Ctx, prop string) {
 					}
 					p.AdaptationField = a
 					c.Count("writepacket_field_values_wider_than_their_fields")
+				case 9:
+					// a negative StuffingLength, as a failed WriteData leaves it on the caller's adaptation field: no stuffing
+					p.Header.HasAdaptationField = true
+					p.AdaptationField = &astits.PacketAdaptationField{HasPCR: true, PCR: &astits.ClockReference{Base: 4242 + pl, Extension: 3}, StuffingLength: []int{-1, -7, -9, -100, -188}[r.IntN(5)]}
+					c.Count("writepacket_negative_stuffing_length")
 				}
 				if shape/2 == 0 && shape == 1 && pl > 0 && pl < 150 {
 					// a packet object re-armed without payload (a PCR-only packet after a data packet) whose Payload slice was left
